@@ -9,6 +9,7 @@ mod c08;
 mod c09;
 mod c14;
 mod c16;
+mod c18;
 mod sync;
 mod util;
 
@@ -29,6 +30,7 @@ fn main() {
         "c05" => c05::run(&text, &args[2], &mut out),
         "c06" | "c07" => c06::run(&text, &args[2], &mut out),
         "c08" => c08::run(&text, &mut out),
+        "c18" => c18::run(&text, &args[2], &mut out),
         "c16" => c16::run(&text, &args[2], &mut out),
         "c09" => c09::run(&text, &args[2], &mut out),
         "c14gen" => c14::gen(&text, &mut out),
